@@ -221,6 +221,7 @@ func TestC07Stateful(t *testing.T) {
 		"Offline/deleteNode of a key in neither list may HALT or FAULT (statement ambiguous) but must change nothing")
 	runRapid(t, col, func(rt *rapid.T, h *ev.History) {
 		n := rapid.SampledFrom([]int{1, 1, 3}).Draw(rt, "n")
+		drawValidators(rt, h, n)
 		w := &c07World{nmWorld: newNmWorld(n, h), m: newCandModel()}
 		defer w.close()
 		steps := rapid.IntRange(1, 30).Draw(rt, "steps")
